@@ -30,6 +30,8 @@ Add(a, b)   == [t |-> "add", a |-> a, b |-> b]
 Half(a)     == [t |-> "half", a |-> a]     \* integer halving: unequal inputs, equal outputs
 If1(c, x, y) == [t |-> "if1", c |-> c, x |-> x, y |-> y]   \* if c = 1 then x else y  (dynamic deps)
 Look(m)     == [t |-> "look", m |-> m]     \* MemoRef param read with lookup_tracked (no execution)
+MkRef(m)    == [t |-> "mkref", m |-> m]    \* let t = m(db); db.intern_ref(&t.1)  -> MemoRef into m's value
+Deref(m)    == [t |-> "deref", m |-> m]    \* let r = m(db) (a MemoRef maker); *r.lookup_tracked(db)
 TSum        == [t |-> "tsum"]              \* for id in db.get_map().tracked() (ascending): sum of db.get(id)
 
 \* ---- the program --------------------------------------------------------------------------
@@ -46,11 +48,14 @@ Body(n) ==
     [] n = "byRef:x" -> Add(Fn("leaf:A"), Fn("leaf:A"))             \* fn by_ref(db, s: &String) borrowed param; repeated dep
     [] n = "ofMemo"  -> Add(Look("leaf:B"), Const(1))               \* fn of_memo(db, r: MemoRef<u8>), r = leaf(B) obtained just before
     [] n = "pair"    -> Add(Fn("single"), Fn("leaf:B"))             \* non-raw #[memo]
+    [] n = "tup"     -> Half(Src("A"))                              \* fn tup(db) -> (u8, String): a value with an interior
+    [] n = "refMaker" -> MkRef("tup")                               \* fn ref_maker(db) -> MemoRef<String> = intern_ref(&tup(db).1)
+    [] n = "refUser" -> Add(Deref("refMaker"), Const(1))            \* fn ref_user(db) reads the MemoRef tracked
     [] n = "twin:a"  -> Add(Const(1), Sing0)                        \* mod a { fn twin(db) }   (C04)
     [] n = "twin:b"  -> Add(Const(2), Sing0)                        \* mod b { fn twin(db) }   same signature text
 
 AllNodes == {"leaf:A", "leaf:B", "single", "top", "tsum", "outer", "byKey:0", "byKey:1",
-             "byRef:x", "ofMemo", "pair", "twin:a", "twin:b"}
+             "byRef:x", "ofMemo", "pair", "twin:a", "twin:b", "tup", "refMaker", "refUser"}
 
 \* ---- from-scratch semantics (layer A) ----------------------------------------------------
 RECURSIVE SumOver(_, _)
@@ -65,6 +70,8 @@ EvalE(e, s, mp) ==
     [] e.t = "sing"  -> IF s[SING] = Absent THEN 0 ELSE s[SING]
     [] e.t = "fn"    -> EvalE(Body(e.m), s, mp)
     [] e.t = "look"  -> EvalE(Body(e.m), s, mp)
+    [] e.t = "mkref" -> EvalE(Body(e.m), s, mp)
+    [] e.t = "deref" -> EvalE(Body(e.m), s, mp)
     [] e.t = "add"   -> EvalE(e.a, s, mp) + EvalE(e.b, s, mp)
     [] e.t = "half"  -> EvalE(e.a, s, mp) \div 2
     [] e.t = "if1"   -> IF EvalE(e.c, s, mp) = 1 THEN EvalE(e.x, s, mp) ELSE EvalE(e.y, s, mp)
@@ -80,6 +87,8 @@ DefE(e, s, mp) ==
     [] e.t = "sing"  -> TRUE
     [] e.t = "fn"    -> DefE(Body(e.m), s, mp)
     [] e.t = "look"  -> DefE(Body(e.m), s, mp)
+    [] e.t = "mkref" -> DefE(Body(e.m), s, mp)
+    [] e.t = "deref" -> DefE(Body(e.m), s, mp)
     [] e.t = "add"   -> DefE(e.a, s, mp) /\ DefE(e.b, s, mp)
     [] e.t = "half"  -> DefE(e.a, s, mp)
     [] e.t = "if1"   -> DefE(e.c, s, mp) /\ (IF EvalE(e.c, s, mp) = 1 THEN DefE(e.x, s, mp) ELSE DefE(e.y, s, mp))
@@ -90,10 +99,17 @@ RECURSIVE CalleesE(_)
 CalleesE(e) ==
   CASE e.t = "fn"   -> {e.m}
     [] e.t = "look" -> {e.m}
+    [] e.t = "mkref" -> {e.m}
+    [] e.t = "deref" -> {e.m}
     [] e.t = "add"  -> CalleesE(e.a) \cup CalleesE(e.b)
     [] e.t = "half" -> CalleesE(e.a)
     [] e.t = "if1"  -> CalleesE(e.c) \cup CalleesE(e.x) \cup CalleesE(e.y)
     [] OTHER        -> {}
+
+\* keys of intern_ref nodes: one per interned VALUE (identity = hash of the value, not of the address)
+IrKey(v) == CASE v = 0 -> "ir:0" [] v = 1 -> "ir:1" [] v = 2 -> "ir:2" [] OTHER -> "ir:x"
+IrKeys == {"ir:0", "ir:1", "ir:2", "ir:x"}
+UsesInternRef == \E n \in Nodes : n \in {"refMaker", "refUser"}
 
 \* user-level protocol of a call: the MemoRef argument of ofMemo is obtained by calling leaf(B)
 \* at top level immediately before (the only way isograph uses MemoRef parameters)
